@@ -44,6 +44,7 @@ RULE = ("seeded generator over (a) static histories: inner sampler kind (random 
         "with ties, 100-400 repetitions. Non-trivial = at least one call was judged against the automaton after the "
         "first one (static: both a cached and a fresh return; adaptive: rows retained and rows replaced); distinct = "
         "(kind, inner sampler, domain, interval class, operations used, loss classes, ratio, parameter rows)")
+RULE += '; loss scales down to 1e-12 in the retention-law workload'
 REQUIRED_REACH = ["StaticSampler.sample_points", "StaticSampler.make_static", "PointSampler.make_static",
                   "StaticSampler.__next__", "PointSampler.__next__",
                   "AdaptiveThresholdRejectionSampler.sample_points", "AdaptiveRandomRejectionSampler.sample_points",
@@ -304,7 +305,9 @@ def _gen_adaptive_rand(rng, tier):
     fr = sorted(set([0.0, 1.0] + [float(x) for x in rng.choice([0.0625, 0.125, 0.25, 0.375, 0.5, 0.625, 0.75, 0.875,
                                                                    0.9375], size=nlev - 2, replace=False)]))
     lo = float(rng.choice([0.0, 0.0, 1.0, 5.5]))
-    sc = float(rng.choice([1.0, 4.0, 0.5, 64.0]))
+    sc = float(rng.choice([1.0, 4.0, 0.5, 64.0, 1e-6, 1e-9, 1e-12]))      # the law is invariant under the scale of the losses
+    if sc < 1e-3:
+        lo = 0.0                    # losses of a converged model: tiny values, not tiny differences of large ones
     reps = int(rng.integers(100, 200)) if tier == "quick" else int(rng.integers(150, 400))
     return {"kind": "adaptive_rand", "dom": dom, "n": int(rng.integers(16, 65)), "k": k, "levels": fr, "lo": lo, "scale": sc,
             "reshuffle": bool(rng.random() < 0.5), "reps": reps, "seed": int(rng.integers(0, 2**31))}
